@@ -12,6 +12,7 @@ T  seeded rasters up to 8x8 (negative / fractional ids, int and float dtypes, va
 """
 import itertools
 import json
+import os
 import random
 
 from harness import core
@@ -91,8 +92,11 @@ def stats_job(rng, z, v, H, W, rt, vs=1, nds=ND6, idlists=IDLISTS, backend="nump
     zdt, vdt = pick_dtypes(rng, z, v, vs)
     all_ = rng.random() < p_all
     ids = [] if all_ else list(rng.choice(idlists))
+    stats = list(rng.choice(stat_choices))
+    if vdt == "float32":     # float32 arithmetic: only the statistics that stay exact on small integers
+        stats = [s for s in stats if s in ("max", "min", "sum", "count", "range", "n", "dsum")] or ["sum", "count"]
     return {"fn": "stats", "H": H, "W": W, "z": list(z), "v": list(v), "vs": vs, "zdt": zdt, "vdt": vdt,
-            "nd": rng.choice(nds), "all": all_, "ids": ids, "stats": list(rng.choice(stat_choices)), "rt": rt,
+            "nd": rng.choice(nds), "all": all_, "ids": ids, "stats": stats, "rt": rt,
             "backend": backend, "steps": backend == "numpy", "tag": tag}
 
 
@@ -152,9 +156,9 @@ def random_jobs(seed, count, backend="numpy", tag="random"):
             sub = rng.sample(cand, rng.randrange(0, min(len(cand), 5) + 1))
             idl.append(sub)
         if backend == "dask":   # the dask path needs one requested zone to exist (it raises otherwise)
-            idl = [l for l in idl if set(l) & set(present)] or [present[:1]] if present else []
             if not present:
                 continue
+            idl = [l for l in idl if set(l) & set(present)] or [present[:1]]
         nds = [NONE, NAN, rng.randrange(-9, 10) * vs, v[0] if U.finite(v[0]) else 0]
         sc = [list(s) for s in STAT_CHOICES[:128]] if backend == "dask" else STAT_CHOICES
         j = stats_job(rng, z, v, H, W, rng.choice(["df", "da"]) if backend == "numpy" else "df", vs=vs, nds=nds,
@@ -215,7 +219,7 @@ def handle(ctx, fails, cases, verdicts, kind):
 def run_batch(ctx, fails, jobs, name, kind, size=60000):
     done = 0
     for part in U.chunks(jobs, size):
-        cases = core.run_jobs("zonal_worker", part)
+        cases = core.run_jobs("zonal_worker", part, nproc=U.nproc_for(part))
         U.check_worker(cases)
         good = [c for c in cases if "error" not in c]
         v = ctx.judge("ZonalStats_Judge", [U.strip(c) for c in good], name="%s_%d" % (name, done),
@@ -274,7 +278,8 @@ def run(ctx):
     ]
     if ctx.replay:
         return replay(ctx)
-    model_checks(ctx)
+    if not os.environ.get("VERIF_DEV_SKIP_M"):      # development switch only
+        model_checks(ctx)
     fails = U.Failures(ctx)
     thorough = ctx.tier == "thorough"
     # ---- R: the complete enumerations through the real code
